@@ -58,6 +58,9 @@ class SimEndpoint:
         self.net.attempts.append(a)
         if self.net.on_attempt is not None:
             self.net.on_attempt(a)
+        if (self.host, self.port) in self.net.sync_refuse:
+            # an endpoint whose connect() fails before returning (e.g. HostnameEndpoint with an invalid host name)
+            a.refuse()
         return a.d
 
 
@@ -140,6 +143,7 @@ class SimNet:
         self.attempts = []
         self.transports = []
         self.on_attempt = None
+        self.sync_refuse = set()  # (host, port) whose connect() returns an already-failed Deferred
         self.on_write = None
 
     def endpoint_factory(self, reactor, host, port):
